@@ -91,7 +91,9 @@ VARIABLES up,        \* [s][r] -> BOOLEAN
           stored,    \* [s][r] -> set of bulks the replica holds (durably)
           fresh,     \* [s][r] -> subset of stored: accepted, maybe not yet indexed
           sealedb,   \* [s][r] -> subset of stored: in sealed fractions
-          dup,       \* [s][r] -> subset of stored: held in two physical copies
+          redel,     \* [s][r] -> subset of sealedb: delivered again since the last seal (a further physical copy)
+          xtra,      \* [s][r] -> number of documents in further physical copies (C17: dropped at indexing only
+                     \*           when the repeat reaches the fraction that already holds the document)
           size,      \* bulk -> number of documents (0: not begun)
           acked, failed,
           fly,       \* bulks in flight: b -> [att, tried, written, cur, pend, bad, good, out]
@@ -99,7 +101,7 @@ VARIABLES up,        \* [s][r] -> BOOLEAN
           res,       \* result of the last search (with ghost fields for the properties)
           faults, nsearch,
           shuffle    \* config.ShuffleReplicas
-vars == <<up, stored, fresh, sealedb, dup, size, acked, failed, fly, q, res, faults, nsearch, shuffle>>
+vars == <<up, stored, fresh, sealedb, redel, xtra, size, acked, failed, fly, q, res, faults, nsearch, shuffle>>
 
 ShardsInt == 1..2
 Reps == 1..NR
@@ -136,7 +138,7 @@ QIdle == [ph |-> "idle", off |-> 0, n |-> 0, must |-> {}, mustall |-> {},
 NoRes == [status |-> "none", ids |-> <<>>, total |-> 0, docs |-> <<>>, must |-> {}, mustall |-> {}, u |-> {},
           off |-> 0, n |-> 0, answered |-> {}, exact |-> 0]
 
-Init == /\ up = Each(TRUE) /\ stored = Each({}) /\ fresh = Each({}) /\ sealedb = Each({}) /\ dup = Each({})
+Init == /\ up = Each(TRUE) /\ stored = Each({}) /\ fresh = Each({}) /\ sealedb = Each({}) /\ redel = Each({}) /\ xtra = Each(0)
         /\ size = [b \in 1..MaxBulk |-> 0] /\ acked = {} /\ failed = {} /\ fly = <<>>
         /\ q = QIdle /\ res = NoRes /\ faults = 0 /\ nsearch = 0 /\ shuffle \in Shuffles
 
@@ -146,7 +148,7 @@ BulkBegin(b, n) ==
   /\ Cardinality(DOMAIN fly) < MaxInflight
   /\ size' = [size EXCEPT ![b] = n]
   /\ fly' = [x \in DOMAIN fly \cup {b} |-> IF x = b THEN NewFly ELSE fly[x]]
-  /\ UNCHANGED <<up, stored, fresh, sealedb, dup, acked, failed, q, res, faults, nsearch, shuffle>>
+  /\ UNCHANGED <<up, stored, fresh, sealedb, redel, xtra, acked, failed, q, res, faults, nsearch, shuffle>>
 
 \* shard.Bulk: `if len(writtenReplicas) > 0 && writtenReplicas[replicaIdx] { continue }`
 Todo(w, s) == {r \in Reps : <<s, r>> \notin w}
@@ -174,9 +176,11 @@ BulkCall(b, s, r, o, st) ==
             ELSE faults' = faults)
         /\ (IF accepted
             THEN /\ stored' = [stored EXCEPT ![s][r] = @ \cup {b}]
-                 /\ dup' = [dup EXCEPT ![s][r] = IF b \in sealedb[s][r] THEN @ \cup {b} ELSE @]
+                 /\ (IF b \in sealedb[s][r] /\ b \notin redel[s][r]
+                     THEN redel' = [redel EXCEPT ![s][r] = @ \cup {b}] /\ xtra' = [xtra EXCEPT ![s][r] = @ + size[b]]
+                     ELSE UNCHANGED <<redel, xtra>>)
                  /\ fresh' = [fresh EXCEPT ![s][r] = IF st THEN {} ELSE IF b \in stored[s][r] THEN @ ELSE @ \cup {b}]
-            ELSE UNCHANGED <<stored, dup, fresh>>)
+            ELSE UNCHANGED <<stored, redel, xtra, fresh>>)
         /\ fly' = [fly EXCEPT ![b] =
              IF pend1 # {}
              THEN [f EXCEPT !.cur = s, !.pend = pend1, !.bad = bad1, !.good = good1, !.written = wr1]
@@ -194,30 +198,33 @@ BulkCall(b, s, r, o, st) ==
 BulkNothingToSend(b, s) ==
   /\ b \in DOMAIN fly /\ fly[b].out = "none" /\ fly[b].cur = 0 /\ s \notin fly[b].tried /\ Todo(fly[b].written, s) = {}
   /\ fly' = [fly EXCEPT ![b].out = "ok"]
-  /\ UNCHANGED <<up, stored, fresh, sealedb, dup, size, acked, failed, q, res, faults, nsearch, shuffle>>
+  /\ UNCHANGED <<up, stored, fresh, sealedb, redel, xtra, size, acked, failed, q, res, faults, nsearch, shuffle>>
 
 Drop(b) == [x \in DOMAIN fly \ {b} |-> fly[x]]
 Ack(b) == /\ b \in DOMAIN fly /\ fly[b].out = "ok"
           /\ acked' = acked \cup {b} /\ fly' = Drop(b)
-          /\ UNCHANGED <<up, stored, fresh, sealedb, dup, size, failed, q, res, faults, nsearch, shuffle>>
+          /\ UNCHANGED <<up, stored, fresh, sealedb, redel, xtra, size, failed, q, res, faults, nsearch, shuffle>>
 Fail(b) == /\ b \in DOMAIN fly /\ fly[b].out = "err"
            /\ failed' = failed \cup {b} /\ fly' = Drop(b)
-           /\ UNCHANGED <<up, stored, fresh, sealedb, dup, size, acked, q, res, faults, nsearch, shuffle>>
+           /\ UNCHANGED <<up, stored, fresh, sealedb, redel, xtra, size, acked, q, res, faults, nsearch, shuffle>>
 
 \* ---------------------------------------------------------------- replicas
 Down(s, r) == /\ up[s][r] /\ faults < MaxFaults /\ faults' = faults + 1
               /\ up' = [up EXCEPT ![s][r] = FALSE]
-              /\ UNCHANGED <<stored, fresh, sealedb, dup, size, acked, failed, fly, q, res, nsearch, shuffle>>
+              /\ UNCHANGED <<stored, fresh, sealedb, redel, xtra, size, acked, failed, fly, q, res, nsearch, shuffle>>
 \* restart: the loader replays what was accepted; everything is indexed when the store serves again
 Up(s, r) == /\ ~up[s][r]
             /\ up' = [up EXCEPT ![s][r] = TRUE] /\ fresh' = [fresh EXCEPT ![s][r] = {}]
-            /\ UNCHANGED <<stored, sealedb, dup, size, acked, failed, fly, q, res, faults, nsearch, shuffle>>
-Seal(s, r) == /\ Seals /\ up[s][r] /\ sealedb[s][r] # stored[s][r]
-              /\ sealedb' = [sealedb EXCEPT ![s][r] = stored[s][r]] /\ fresh' = [fresh EXCEPT ![s][r] = {}]
-              /\ UNCHANGED <<up, stored, dup, size, acked, failed, fly, q, res, faults, nsearch, shuffle>>
+            /\ UNCHANGED <<stored, sealedb, redel, xtra, size, acked, failed, fly, q, res, faults, nsearch, shuffle>>
+SealG(s, r) == /\ Seals /\ up[s][r]
+               /\ sealedb' = [sealedb EXCEPT ![s][r] = stored[s][r]] /\ fresh' = [fresh EXCEPT ![s][r] = {}]
+               /\ redel' = [redel EXCEPT ![s][r] = {}]
+               /\ UNCHANGED <<up, stored, xtra, size, acked, failed, fly, q, res, faults, nsearch, shuffle>>
+\* design runs: only a seal that changes something (a trace may seal a re-delivered copy: same sets)
+Seal(s, r) == (sealedb[s][r] # stored[s][r] \/ redel[s][r] # {}) /\ SealG(s, r)
 Settle(s, r) == /\ up[s][r] /\ fresh[s][r] # {}
                 /\ fresh' = [fresh EXCEPT ![s][r] = {}]
-                /\ UNCHANGED <<up, stored, sealedb, dup, size, acked, failed, fly, q, res, faults, nsearch, shuffle>>
+                /\ UNCHANGED <<up, stored, sealedb, redel, xtra, size, acked, failed, fly, q, res, faults, nsearch, shuffle>>
 
 \* ---------------------------------------------------------------- the read path
 \* acknowledged bulks a search beginning now must see: some shard has them indexed on every replica
@@ -227,7 +234,7 @@ SearchBegin(off, n) ==
   /\ q.ph = "idle" /\ nsearch < MaxSearch /\ off >= 0 /\ n >= 0
   /\ q' = [QIdle EXCEPT !.ph = "search", !.off = off, !.n = n, !.must = SettledAcked, !.mustall = acked]
   /\ res' = NoRes
-  /\ UNCHANGED <<up, stored, fresh, sealedb, dup, size, acked, failed, fly, faults, nsearch, shuffle>>
+  /\ UNCHANGED <<up, stored, fresh, sealedb, redel, xtra, size, acked, failed, fly, faults, nsearch, shuffle>>
 
 \* what a replica may answer to a search for everything with limit k (storeapi/grpc_search.go: limit = size +
 \* offset): the newest k documents of a set between "everything indexed" and "everything accepted";
@@ -239,7 +246,7 @@ AnswerOK(a, t, s, r, k) ==
      /\ \A i \in 1..Len(a) - 1 : Key(a[i]) > Key(a[i + 1])
      /\ \A d \in sure : d \in Range(a) \/ (Len(a) = k /\ k > 0 /\ Key(d) < Key(a[k])) \/ k = 0
      /\ t >= Cardinality(sure) /\ t >= Len(a)
-     /\ t <= Cardinality(all) + Cardinality(DocsOf(dup[s][r]))
+     /\ t <= Cardinality(all) + xtra[s][r]
 
 Untried(s) == Reps \ q.tried[s]
 SearchCall(s, r, o, a, t) ==
@@ -253,7 +260,7 @@ SearchCall(s, r, o, a, t) ==
       ELSE /\ (IF up[s][r] THEN faults < MaxFaults /\ faults' = faults + 1 ELSE faults' = faults)
            \* `errs = append(errs, err); continue`; after the loop: `return nil, 0, util.DeduplicateErrors(errs)`
            /\ q' = [q EXCEPT !.tried[s] = @ \cup {r}, !.st[s] = IF q.tried[s] \cup {r} = Reps THEN "fail" ELSE "run"])
-  /\ UNCHANGED <<up, stored, fresh, sealedb, dup, size, acked, failed, fly, res, nsearch, shuffle>>
+  /\ UNCHANGED <<up, stored, fresh, sealedb, redel, xtra, size, acked, failed, fly, res, nsearch, shuffle>>
 
 SearchDone == \A s \in Shards : q.st[s] # "run"
 Answered == {s \in Shards : q.st[s] = "ok"}
@@ -290,7 +297,7 @@ FetchCall(s, r, o, D) ==
   /\ (IF o = "ok" THEN up[s][r] /\ faults' = faults
       ELSE IF up[s][r] THEN faults < MaxFaults /\ faults' = faults + 1 ELSE faults' = faults)
   /\ q' = [q EXCEPT !.fet[s] = o, !.asg[s] = D]
-  /\ UNCHANGED <<up, stored, fresh, sealedb, dup, size, acked, failed, fly, res, nsearch, shuffle>>
+  /\ UNCHANGED <<up, stored, fresh, sealedb, redel, xtra, size, acked, failed, fly, res, nsearch, shuffle>>
 
 SearchRet ==
   /\ q.ph = "search" /\ SearchDone
@@ -309,7 +316,7 @@ SearchRet ==
                         must |-> q.must, mustall |-> q.mustall, u |-> u, off |-> q.off, n |-> q.n, answered |-> A,
                         exact |-> Cardinality(u)]
   /\ q' = QIdle /\ nsearch' = nsearch + 1
-  /\ UNCHANGED <<up, stored, fresh, sealedb, dup, size, acked, failed, fly, faults, shuffle>>
+  /\ UNCHANGED <<up, stored, fresh, sealedb, redel, xtra, size, acked, failed, fly, faults, shuffle>>
 
 \* ---------------------------------------------------------------- next-state relation of the design runs
 Used == {b \in 1..MaxBulk : size[b] # 0}
@@ -329,7 +336,7 @@ Next ==
           /\ \/ SearchCall(s, r, "err", <<>>, 0)
              \/ \E W \in SUBSET fresh[s][r] :
                   LET V == DocsOf(stored[s][r] \ W)
-                  IN \E x \in (IF dup[s][r] \ W = {} THEN {0} ELSE {0, Cardinality(DocsOf(dup[s][r] \ W))}) :
+                  IN \E x \in {0, xtra[s][r]} :
                        SearchCall(s, r, "ok", Top(SortDesc(V), q.off + q.n), Cardinality(V) + x)
   \/ /\ q.ph = "search" /\ SearchDone
      /\ \/ SearchRet
@@ -342,7 +349,7 @@ Spec == Init /\ [][Next]_vars
 \* ---------------------------------------------------------------- properties
 TypeOK ==
   /\ \A s \in Shards, r \in Reps : /\ fresh[s][r] \subseteq stored[s][r] /\ sealedb[s][r] \subseteq stored[s][r]
-                                   /\ dup[s][r] \subseteq sealedb[s][r] /\ stored[s][r] \subseteq Used
+                                   /\ redel[s][r] \subseteq sealedb[s][r] /\ xtra[s][r] >= 0 /\ stored[s][r] \subseteq Used
   /\ acked \cap failed = {} /\ (acked \cup failed) \cap DOMAIN fly = {} /\ acked \cup failed \cup DOMAIN fly = Used
   /\ \A b \in DOMAIN fly : fly[b].att \in 1..MaxTries /\ fly[b].out \in {"none", "ok", "err"}
   /\ res.status \in {"none", "ok", "partial", "error"} /\ faults \in 0..MaxFaults
